@@ -118,6 +118,22 @@ def _inline_call(helper: ast.FunctionDef, call: ast.Call, targets, as_return, si
     bound = _bound_names(helper)
     suffix = "__" + helper.name.strip("_")
     rename = {n: n + suffix for n in bound if n not in params}
+    # `T1, T2 = h(..)` with `return l1, l2` (distinct helper locals): the locals take the caller's names directly and the final copy
+    # disappears -- provided the caller's names occur neither in the arguments nor as free names of the helper (no capture)
+    direct = False
+    rstmt = _strip_doc(helper.body)[-1] if _strip_doc(helper.body) else None
+    if targets is not None and not as_return and len(targets) == 1 and isinstance(rstmt, ast.Return) and rstmt.value is not None:
+        tg, rv = targets[0], rstmt.value
+        tnames = [tg.id] if isinstance(tg, ast.Name) else ([e.id for e in tg.elts] if isinstance(tg, (ast.Tuple, ast.List)) and all(isinstance(e, ast.Name) for e in tg.elts) else None)
+        rnames = [rv.id] if isinstance(rv, ast.Name) else ([e.id for e in rv.elts] if isinstance(rv, ast.Tuple) and all(isinstance(e, ast.Name) for e in rv.elts) else None)
+        if tnames and rnames and len(tnames) == len(rnames) and len(set(rnames)) == len(rnames) and len(set(tnames)) == len(tnames) \
+                and all(r in bound and r not in params for r in rnames):
+            argnames = {x.id for a_ in actual.values() for x in ast.walk(a_) if isinstance(x, ast.Name)}
+            free = {x.id for x in ast.walk(helper) if isinstance(x, ast.Name)} - set(bound) - set(params)
+            if not (set(tnames) & (argnames | free)) and not (set(tnames) & (set(bound) - set(rnames))):
+                for r, t in zip(rnames, tnames):
+                    rename[r] = t
+                direct = True
     pre = []
     subst = {}
     for p in params:
@@ -148,6 +164,8 @@ def _inline_call(helper: ast.FunctionDef, call: ast.Call, targets, as_return, si
         val = ret.value if ret.value is not None else ast.Constant(value=None)
         if as_return:
             out.append(ast.Return(value=val))
+        elif direct:
+            pass
         elif targets is not None:
             out.append(ast.Assign(targets=copy.deepcopy(targets), value=val))
         else:
